@@ -127,6 +127,8 @@ func vhC19_pipe_L2() { vC19Pipe(2) }
 func vhC19_pipe_L3() { vC19Pipe(3) }
 
 // C19: the stand-alone counting operators.
+var vKeyUp = vCtxKey{"upstream"}
+
 func vC19Standalone(L int) {
 	licence := vChoice("licence", 2) == 1
 	bypassLicenseCheck = licence
@@ -136,7 +138,10 @@ func vC19Standalone(L int) {
 	cE := prometheus.NewCounter(prometheus.CounterOpts{Name: "e"})
 	cC := prometheus.NewCounter(prometheus.CounterOpts{Name: "c"})
 	cS := prometheus.NewCounter(prometheus.CounterOpts{Name: "s"})
-	obs := ro.Pipe4(src.obs(),
+	// a value attached to the context UPSTREAM of the counters (not by the subscriber) must come
+	// out of them on every notification kind
+	upstream := ro.ContextWithValue[int64](vKeyUp, int64(5))(src.obs())
+	obs := ro.Pipe4(upstream,
 		IncCounterOnNext[int64](cN),
 		IncCounterOnError[int64](cE),
 		IncCounterOnComplete[int64](cC),
@@ -148,6 +153,10 @@ func vC19Standalone(L int) {
 	ref := &vSource{cold: true, script: in}
 	ref.obs().SubscribeWithContext(context.Background(), vObs(want, vFlatInt))
 	vSameEvents("prometheus counters", rec.evs, want.evs)
+	for _, e := range rec.evs {
+		v, ok := e.ctx.Value(vKeyUp).(int64)
+		vAssert(ok && v == 5, "prometheus counters: a context value attached upstream of the counting operators is lost")
+	}
 	if licence {
 		nE, nC := 0, 0
 		if vEnd(in) == vkError {
